@@ -53,7 +53,7 @@ pub fn fixed_jobs(tier: Tier, need: Need) -> Vec<Job> {
       continue;
     }
     let (alphabet, n, rule) = match tier {
-      Tier::Quick => if full.len() <= 14 { (full, 3, "all mentioned keys + 1 foreign key + 1 foreign modifier") } else if full.len() <= 40 { (full, 2, "all mentioned keys + 1 foreign key + 1 foreign modifier") } else { (trig, 2, "trigger keys + 1 foreign key + 1 foreign modifier") },
+      Tier::Quick => if full.len() <= 60 { (full, 3, "all mentioned keys + 1 foreign key + 1 foreign modifier") } else { (trig, 2, "trigger keys + 1 foreign key + 1 foreign modifier") },
       Tier::Thorough => if full.len() <= 14 { (with_foreign(mentioned_keys(&nl.layout), &nl.layout, 2), 4, "all mentioned keys + 2 foreign keys + 2 foreign modifiers") } else if full.len() <= 60 { (full, 3, "all mentioned keys + 1 foreign key + 1 foreign modifier") } else { (trig, 3, "trigger keys + 1 foreign key + 1 foreign modifier") },
     };
     jobs.push(Job::Fixed { name: nl.name, layout: nl.layout, alphabet, n, alpha_rule: rule });
